@@ -136,6 +136,49 @@ class NeedDecision(Exception):
     """a branch on a symbolic scalar was met while the list of forced decisions is exhausted"""
 
 
+class JobNeedDecision(BaseException):
+    """job-level path splitting (see JobFork); a BaseException so that no `except Exception` in a job swallows it"""
+
+
+class JobFork:
+    """Path splitting for a whole job on *tolerance predicates* (np.allclose / np.isclose / math.isclose used as a branch
+    condition).  Such a predicate is data dependent and neither outcome implies an exact relation between its operands, so
+    both outcomes are feasible for the inputs the properties quantify over and the obligations must hold on both paths; the
+    job is re-run once per decision sequence (check._run_job).  One decision per (location, condition): the same call site
+    is decided the same way during a run."""
+    def __init__(self, forced=()):
+        self.forced = list(forced)
+        self.decided = {}
+        self.log = []
+
+    def decide(self, cond, where):
+        key = (where, str(cond))
+        if key in self.decided:
+            return self.decided[key]
+        k = len(self.log)
+        if k >= len(self.forced):
+            raise JobNeedDecision(where)
+        d = self.forced[k]
+        self.decided[key] = d
+        self.log.append((where, d))
+        return d
+
+
+JOB_FORK = None
+
+
+def is_tolpred(c):
+    """a bare tolerance-predicate atom (or its negation 1 - atom)"""
+    from .alg import Rat as _R, atoms_with_head
+    if not isinstance(c, _R):
+        return False
+    for cand in (c, 1 - c):
+        ks = atoms_with_head(cand, 'tolpred')
+        if len(ks) == 1 and len(cand.atoms()) == 1 and (cand - _R.atom(ks[0][1])).is_zero():
+            return True
+    return False
+
+
 class Fork:
     """Path splitting for branches on symbolic *scalar* conditions (operator methods given a symbolic scalar operand).
     The driver re-interprets the function once per decision sequence (explore_paths); every path carries its path
@@ -179,7 +222,7 @@ NDARRAY = ATypeRef('ndarray')
 NOT_GIVEN = object()
 
 _BUILTINS = {'len', 'type', 'issubclass', 'isinstance', 'print', 'bool', 'int', 'float', 'abs', 'min', 'max',
-             'range', 'hasattr', 'getattr', 'super', 'vars', 'str', 'tuple', 'list', 'sum', 'enumerate', 'zip', 'Exception',
+             'range', 'hasattr', 'getattr', 'super', 'vars', 'str', 'tuple', 'list', 'sum', 'enumerate', 'zip', 'Exception', 'id', 'dict', 'set',
              'TypeError', 'ValueError', 'AttributeError', 'NotImplementedError', 'IndexError'}
 _EXC_NAMES = {'Exception', 'TypeError', 'ValueError', 'AttributeError', 'NotImplementedError', 'IndexError',
               'KeyError', 'ZeroDivisionError', 'RuntimeError'}
@@ -285,6 +328,15 @@ class Interp:
             else:
                 raise AbstractRaise('TypeError', f"{fi.qualname}() got an unexpected keyword argument '{next(iter(kwargs))}'")
 
+    def run_snippet(self, src, env, module='pdesolver'):
+        """interpret a few statements of *user-level* code (an edit history: assignments, augmented assignments, method
+        calls) with the given variable bindings; returns the frame's variables afterwards"""
+        tree = ast.parse(src)
+        fr = Frame(module)
+        fr.vars.update(env)
+        self.exec_block(fr, tree.body)
+        return fr.vars
+
     def instantiate(self, clsname, args, kwargs=None):
         kwargs = kwargs or {}
         if clsname == 'TrackedArray':
@@ -347,8 +399,15 @@ class Interp:
                         cur.log = []
                     else:
                         cur.log.append((('inplace',), snap(val), st.lineno))
+                    if isinstance(st.target, ast.Attribute):
+                        # obj.attr op= v  is  obj.attr = obj.attr.__iop__(v): the in-place operator itself bypasses
+                        # __setitem__ (no dirty flag), then the very same array object is stored back through the attribute -
+                        # for a property that runs the setter
+                        self.assign(fr, st.target, cur, st.lineno)
                 else:
                     self.store_subscript(cur.base, cur.key, val, st.lineno)
+                    if isinstance(st.target, ast.Attribute):
+                        self.assign(fr, st.target, cur, st.lineno)
                 return
             val = self.binop(st.op, cur, rhs, st.lineno)
             self.assign(fr, st.target, val, st.lineno)
@@ -501,8 +560,9 @@ class Interp:
             self.events.append(('skipped-warn-branch', fr.module, st.lineno, ast.unparse(st.test)))
             return
         if fr.capture is None:
-            if self.fork is not None:
-                d = self.fork.decide(c, f"{fr.module}.py:{st.lineno}: {ast.unparse(st.test)}")
+            fk = self.fork if self.fork is not None else (JOB_FORK if is_tolpred(c) else None)
+            if fk is not None:
+                d = fk.decide(c, f"{fr.module}.py:{st.lineno}: {ast.unparse(st.test)}")
                 self.exec_block(fr, st.body if d else st.orelse)
                 return
             raise AnalysisError(f"branch on a symbolic value at {fr.module}.py:{st.lineno}: {ast.unparse(st.test)}")
@@ -757,7 +817,12 @@ class Interp:
             if k == 'ext':
                 return self.external(v)
             if k == 'global':
-                return self.eval(Frame(module), v.value)
+                # a module-level binding is evaluated once per interpreter, as at import: a mutable module-level object (a cache
+                # dict, a list) keeps its state between the calls this interpreter makes
+                st = self.__dict__.setdefault('_module_state', {})
+                if (module, n) not in st:
+                    st[(module, n)] = self.eval(Frame(module), v.value)
+                return st[(module, n)]
         if n in _BUILTINS or n in _EXC_NAMES:
             return Builtin(n)
         if n in ('True', 'False', 'None'):
@@ -799,6 +864,11 @@ class Interp:
                 return self.call_function(g, [obj], self_obj=obj)
             mth = self.sm.find_method(obj.cls, name)
             if mth is not None:
+                decos = {ast.unparse(d) for d in getattr(mth.node, 'decorator_list', [])}
+                if 'staticmethod' in decos:
+                    return AFuncRef(mth)
+                if 'classmethod' in decos:
+                    return ABound(AClassRef(obj.cls), mth)
                 return ABound(obj, mth)
             if name == '__class__':
                 return AClassRef(obj.cls)
@@ -814,6 +884,13 @@ class Interp:
         if isinstance(obj, AClassRef):
             if name == '__name__':
                 return AStr(obj.name)
+            if self.sm.has_cls(obj.name):
+                mth = self.sm.find_method(obj.name, name)
+                if mth is not None:
+                    decos = {ast.unparse(d) for d in getattr(mth.node, 'decorator_list', [])}
+                    if 'classmethod' in decos:
+                        return ABound(obj, mth)
+                    return AFuncRef(mth)           # static method, or a plain function taken from the class (explicit self)
             raise AnalysisError(f"class attribute {obj.name}.{name}")
         if is_arraylike(obj):
             return self.arr_attr(obj, name)
@@ -896,8 +973,9 @@ class Interp:
             return self.eval(fr, e.body)
         if c is False:
             return self.eval(fr, e.orelse)
-        if self.fork is not None and fr.capture is None:
-            d = self.fork.decide(c, f"{fr.module}.py:{e.lineno}: {ast.unparse(e.test)}")
+        fk = self.fork if self.fork is not None else (JOB_FORK if is_tolpred(c) else None)
+        if fk is not None and fr.capture is None:
+            d = fk.decide(c, f"{fr.module}.py:{e.lineno}: {ast.unparse(e.test)}")
             return self.eval(fr, e.body if d else e.orelse)
         raise AnalysisError("conditional expression on a symbolic value")
 
